@@ -203,3 +203,81 @@ Fixpoint close_list (tol : R) (a b : list R) : Prop :=
   | [], [] => True
   | _, _ => False
   end.
+
+(* ---- resolution_size = R > 1 : an event is R consecutive smeared samples ----
+   model.py:41 _batch_sum / :322 BaseModel.nll / :603 get_weight_data reshape the flat per-sample
+   arrays to (-1, R):   event weight  W_e = sum_j w_ej,
+                        event density (sum_j w_ej f_ej) / dom(W_e),  dom(W) = 1 if W = 0 else W,
+   and the logarithm is taken per EVENT.  Events are modelled as lists of their samples; [chunk R]
+   is the reshape of a flat list (used by the correspondence goals, evaluated inside Coq). *)
+
+Fixpoint chunk_fuel (fuel n : nat) (l : list R) : list (list R) :=
+  match fuel with
+  | O => []
+  | S k => match l with
+           | [] => []
+           | _ => firstn n l :: chunk_fuel k n (skipn n l)
+           end
+  end.
+Definition chunk (n : nat) (l : list R) : list (list R) := chunk_fuel (length l) n l.
+
+Definition ev_weights (we : list (list R)) : list R := map rsum we.
+
+Definition dom_w (W : R) : R := if Req_EM_T W 0 then 1 else W.
+
+Fixpoint ev_density (we fe : list (list R)) : list R :=
+  match we, fe with
+  | w :: we', f :: fe' => rdot w f / dom_w (rsum w) :: ev_density we' fe'
+  | _, _ => []
+  end.
+
+(* the same without the zero guard (equal when no event weight vanishes: NLL_proofs.ev_density_nz_eq) *)
+Fixpoint ev_density_nz (we fe : list (list R)) : list R :=
+  match we, fe with
+  | w :: we', f :: fe' => rdot w f / rsum w :: ev_density_nz we' fe'
+  | _, _ => []
+  end.
+
+(* get_weight_data with resolution: alpha from the EVENT weights, applied to every sample *)
+Definition alpha_res (we : list (list R)) : R := alpha (ev_weights we).
+Definition scale_res (we : list (list R)) : list (list R) := map (rscale (alpha_res we)) we.
+Definition fcn_weight_res (n : nat) (ws bgw : list R) : list (list R) := scale_res (chunk n (blend ws bgw)).
+
+(* BaseModel.nll : sw is the sum over samples, alpha = sw / sum_e W_e^2 *)
+Definition nll_base_res (ext : bool) (we fe : list (list R)) (v g : list R) : R :=
+  - (rsum (concat we) / rsum (sqs (ev_weights we)))
+  * (rdot (ev_weights we) (map clip_log (ev_density we fe))
+     - rsum (concat we) * int_f ext (rdot v g / rsum v)).
+
+Definition nll_call_res (ext : bool) (We fe : list (list R)) (V g : list R) : R :=
+  nll_base_res ext (scale_res We) fe V g.
+
+(* value of nll_grad_batch / nll_grad_hessian (sum_gradient with resolution_size) *)
+Definition nll_gradval_res (ext : bool) (We fe : list (list R)) (V g : list R) : R :=
+  - rdot (ev_weights We) (map clip_log (ev_density We fe)) + rsum (concat We) * int_f ext (rdot V g).
+
+(* batches of whole events *)
+Definition nll_gradval_res_batched (ext : bool) (bd : list (list (list R) * list (list R))) (bm : list (list R * list R)) : R :=
+  - rsum (map (fun b => rdot (ev_weights (fst b)) (map clip_log (ev_density (fst b) (snd b)))) bd)
+  + rsum (map (fun b => rsum (concat (fst b))) bd) * int_f ext (rsum (map (fun b => rdot (fst b) (snd b)) bm)).
+
+(* cfit with resolution.  Model_cfit.nll: event averages of sig and bg (no zero guard), plain log *)
+Fixpoint ev_cfit_probs (fb isig ibg : R) (we se be : list (list R)) : list R :=
+  match we, se, be with
+  | w :: we', s :: se', b :: be' =>
+      cfit_prob fb isig ibg (rdot w s / rsum w) (rdot w b / rsum w) :: ev_cfit_probs fb isig ibg we' se' be'
+  | _, _, _ => []
+  end.
+
+Definition cfit_call_res (fb : R) (We se be : list (list R)) (V sg bm : list R) : R :=
+  - rdot (ev_weights (scale_res We)) (map ln (ev_cfit_probs fb (rdot V sg) (rdot V bm) (scale_res We) se be)).
+
+(* nll_grad_batch / nll_grad_hessian: clip_log of the event average of the per-sample mixture *)
+Fixpoint sample_probs (fb isig ibg : R) (se be : list (list R)) : list (list R) :=
+  match se, be with
+  | s :: se', b :: be' => rzip (cfit_prob fb isig ibg) s b :: sample_probs fb isig ibg se' be'
+  | _, _ => []
+  end.
+
+Definition cfit_gradval_res (fb : R) (We se be : list (list R)) (V sg bm : list R) : R :=
+  - rdot (ev_weights We) (map clip_log (ev_density We (sample_probs fb (rdot V sg) (rdot V bm) se be))).
